@@ -6,6 +6,7 @@ mod bufeng;
 mod bufmut;
 mod bufnode;
 mod bufrun;
+mod fault;
 mod hist;
 mod histrun;
 mod oalloc;
@@ -22,6 +23,7 @@ fn main() {
     let code = match args.pos.first().map(|s| s.as_str()) {
         Some("hist") => histrun::main_hist(&args),
         Some("tbl") => tbl::main_tbl(&args),
+        Some("fault") => fault::main_fault(&args),
         Some("recycle") => recycle::main_recycle(&args),
         Some("buf") => bufrun::main_buf(&args),
         Some("bufmut") => bufmut::main_bufmut(&args),
